@@ -61,6 +61,8 @@ def run(ctx, col, tier):
     col.guard(rank, ctx, col)
     col.guard(bif, ctx, col)
     col.guard(dispatch, ctx, col)
+    from ..rules import smalllints2 as _s2
+    _s2.run_clip(ctx, col, ('swcgeom.core.swc_utils.normalizer', 'swcgeom.core.swc_utils.io'))
     col.guard(checkers, ctx, col)
     col.guard(cg_rule, ctx, col)
     from ..rules import rootcmp
